@@ -209,4 +209,34 @@ def build(tier, seed):
         kk.bounds = ['all 29 listed kinds']
         return kk
     ks.append(kernel_or_error('builtin_types', builtin))
+    def pointer():
+        mod = rd('codegen/mod.rs')
+        traits = []
+        for pat, what in ((r'^pub\(crate\) trait TryToOpaque \{', 'trait TryToOpaque'), (r'^pub\(crate\) trait ToOpaque: TryToOpaque \{', 'trait ToOpaque'),
+                          (r'^impl<T> ToOpaque for T where T: TryToOpaque \{\}', 'impl ToOpaque for T'), (r'^pub\(crate\) trait TryToRustTy \{', 'trait TryToRustTy'),
+                          (r'^pub\(crate\) trait ToRustTyOrOpaque: TryToRustTy \+ ToOpaque \{', 'trait ToRustTyOrOpaque'), (r'^impl<E, T> ToRustTyOrOpaque for T$', 'impl ToRustTyOrOpaque for T')):
+            if pat.endswith('\\{\\}'):
+                mm = re.search(pat, mod, flags=re.M)
+                if not mm:
+                    raise SliceError('item not found: ' + what)
+                traits.append(mm.group(0))
+            else:
+                traits.append(extract(mod, pat, what=what))
+        imp = extract(mod, r'^impl TryToRustTy for Type \{', what='impl TryToRustTy for Type')
+        m = re.search(r'TypeKind::Pointer\(inner\) \| TypeKind::Reference\(inner\) => \{', imp)
+        if not m:
+            raise SliceError('impl TryToRustTy for Type: Pointer / Reference arm not found')
+        arm = imp[m.end() - 1:match_brace(imp, m.end() - 1)]
+        h = open(os.path.join(G, 'harness', 'c02_pointer.rs')).read().replace('/*TRAITS*/', '\n'.join(traits)).replace('/*POINTER_ARM*/', arm)
+        kk = Kernel(name='pointer_types')
+        kk.files = {'src/lib.rs': h}
+        kk.harnesses = [H('a_pointer_typed_value_always_occupies_a_pointer', desc='Pointer / Reference arm of Type::try_to_rust_ty with the real ToRustTyOrOpaque / ToOpaque fallbacks: whatever the pointee is (function type with a supported or unsupported ABI, Objective-C interface, anything else; convertible or not; layout known or not) an Ok result is pointer sized; otherwise an error reaches the caller',
+                          sample='pointee kind x convertible x layouts x pointer size 4 / 8 x nonnull-references option')]
+        kk.encoded = [enc('codegen/mod.rs', 'impl TryToRustTy for Type: Pointer / Reference arm', arm)] + [enc('codegen/mod.rs', 'conversion traits', t) for t in traits]
+        kk.stubs = ['syn::Type: what the type expression stands for (Opaque(layout), FnPtr, ObjCObject, Named(layout), RawPtr, NonNull)', 'helpers::blob: Opaque(layout) (exactness is kernel layout)', 'the pointee item: conversion succeeds or fails, layout known or not',
+                    'ItemResolver: identity']
+        kk.assumptions = ['Option<unsafe extern fn>, *const T, *mut T, NonNull<T> and an Objective-C wrapper struct are pointer sized', 'an Objective-C interface always converts (named by identifier)']
+        kk.bounds = ['no loops; pointer size 4 or 8; layouts <= 64 bytes']
+        return kk
+    ks.append(kernel_or_error('pointer_types', pointer))
     return ks
